@@ -85,7 +85,7 @@ def fix_zerountil(shapes):
     return shapes
 
 
-def random_program(rnd, n_stmts):
+def random_program(rnd, n_stmts, sym_page=False):
     prog, labels, pending_refs = [], [], []
     nlab = 0
     all_labels = [f'l{i}' for i in range(n_stmts)]
@@ -121,8 +121,11 @@ def random_program(rnd, n_stmts):
             used_syms.add('v1')
             prog.append(('org', ('+', V('v1'), C(0x1400 + 0x400 * rnd.randint(0, 3))), None))
         elif k == 'align':
-            used_syms.add('p')
-            prog.append(('align', rnd.choice([V('p'), C(4), C(16), C(1)])))
+            if sym_page and rnd.random() < 0.3:
+                used_syms.add('p')
+                prog.append(('align', V('p')))
+            else:
+                prog.append(('align', rnd.choice([C(4), C(16), C(1), C(3), C(8), C(256)])))
         elif k == 'mute':
             prog.append(('unmute',) if muted else ('mute',))
             muted = not muted
@@ -143,6 +146,6 @@ def shapes(tier, seed):
     rnd = random.Random(1000 + seed)
     n = 28 if tier == 'quick' else 700
     for i in range(n):
-        prog, syms = random_program(rnd, rnd.randint(5, 11))
-        out.append(mk(f'rnd:{seed}:{i}', prog, consts=tuple(syms), expect=('ok',), width=40 if 'p' in syms else 48))
+        prog, syms = random_program(rnd, rnd.randint(5, 11), sym_page=(tier != 'quick'))
+        out.append(mk(f'rnd:{seed}:{i}', prog, consts=tuple(syms), expect=(), width=40 if 'p' in syms else 48))
     return out
